@@ -1,8 +1,9 @@
 /-
 Totality of the functional encoder (C07, second half), part 2: `encode_subframe` hits no panic site
-whenever the oracle log has the shape the function consumes (`SubLogOk`) — the `est` events of the
-`ApproxEnt` fixed stage, then the `qlpc` event of the LPC stage, whose parameter set must satisfy
-`LpcSafe` (which is exactly the no-panic condition of the LPC stage: `lpcCandidate_isSome_iff`).
+whenever the oracle log has the SHAPE the function consumes (`SubLogOk`) — the `est` events of the
+`ApproxEnt` fixed stage, then the `qlpc` event of the LPC stage.  Nothing is asked of the quantised
+parameter set beyond `OEvent.Ok`: `compute_error` never panics, and the LPC candidate is dropped exactly
+when the exact residual is not encodable (`lpcCandidate_total`).
 -/
 import FlacVerif.Lemmas.TotalLpc
 import FlacVerif.Lemmas.WrapLpc
@@ -23,12 +24,12 @@ def subTake (cfg : SubCfg) (xs : List Int) : Nat :=
   if (cfg.useConstant && isConstant xs) || decide (xs.length < minBlockForPrediction) then 0
   else estTake cfg + (if cfg.useLpc then 1 else 0)
 
-/-- The log starts with the events `encode_subframe` asks for on the block `xs`, and the quantised LPC
-parameter set (if one is asked for) satisfies `LpcSafe` for this block. -/
+/-- The log starts with the events `encode_subframe` asks for on the block `xs` (shape only: nothing is
+asked of the quantised LPC parameter set). -/
 def SubLogOk (cfg : SubCfg) (xs : List Int) (log : List OEvent) : Prop :=
   (cfg.useConstant && isConstant xs) = true ∨ xs.length < minBlockForPrediction ∨
   (estTake cfg ≤ log.length ∧ (∀ e ∈ log.take (estTake cfg), ∃ o b, e = OEvent.est o b) ∧
-    (cfg.useLpc = true → ∃ c s p, (log.drop (estTake cfg)).head? = some (.qlpc c s p) ∧ LpcSafe c s.toNat xs))
+    (cfg.useLpc = true → ∃ c s p, (log.drop (estTake cfg)).head? = some (.qlpc c s p)))
 
 theorem takeEsts_ok : ∀ (k : Nat) (log : List OEvent), k ≤ log.length →
     (∀ e ∈ log.take k, ∃ o b, e = OEvent.est o b) → ∃ bs, takeEsts k log = some (bs, log.drop k) := by
@@ -133,77 +134,39 @@ theorem fixedStage_total (cfg : SubCfg) (xs : List Int) (bps baseline : Nat) (lo
 
 /-! ### the LPC stage -/
 
+/-- **The LPC stage never panics**, for ANY quantised parameter set of at most 64 coefficients: it consumes
+the `qlpc` event and returns a candidate exactly when every value of the exact LPC residual lies in
+`-(2^31-1) ..= 2^31-1` (the range of FLAC residuals); otherwise the candidate is dropped. -/
 theorem lpcCandidate_total (cfg : SubCfg) (xs : List Int) (bps : Nat) (c : List Int) (s : Int) (p : Nat)
-    (rest : List OEvent) (hn : 64 ≤ xs.length) (hlen : xs.length < 2 ^ 16) (hc : c.length ≤ 64)
-    (hsafe : LpcSafe c s.toNat xs) :
-    ∃ f, lpcCandidate cfg xs bps (.qlpc c s p :: rest) = some (f, rest) := by
-  obtain ⟨errors, he, hel, her⟩ := computeError_safe c s.toNat xs hsafe
-  obtain ⟨prc, hp⟩ := search_some errors c.length cfg.maxP her (by rw [hel]; omega) (by rw [hel]; exact hlen)
-  unfold lpcCandidate
-  simp only [he, encodeResidual, hp, Option.bind_eq_bind, Option.bind_some]
-  exact ⟨_, rfl⟩
-
-/-- **`LpcSafe` is exact**: the LPC stage returns (no panic site) iff the parameter set is `LpcSafe`
-for the block. -/
-theorem lpcCandidate_isSome_iff (cfg : SubCfg) (xs : List Int) (bps : Nat) (c : List Int) (s : Int) (p : Nat)
     (rest : List OEvent) (hn : 64 ≤ xs.length) (hlen : xs.length < 2 ^ 16) (hc : c.length ≤ 64) :
-    (lpcCandidate cfg xs bps (.qlpc c s p :: rest)).isSome = true ↔ LpcSafe c s.toNat xs := by
-  constructor
-  · intro h
-    cases hlc : lpcCandidate cfg xs bps (.qlpc c s p :: rest) with
-    | none => rw [hlc] at h; cases h
-    | some r =>
-      unfold lpcCandidate at hlc
-      simp only [Option.bind_eq_bind, Option.bind_eq_some_iff, Option.some.injEq] at hlc
-      obtain ⟨errors, hce, res, hres, _⟩ := hlc
-      unfold encodeResidual at hres
-      simp only [Option.bind_eq_bind, Option.bind_eq_some_iff, Option.some.injEq] at hres
-      obtain ⟨prc, hs, _⟩ := hres
-      obtain ⟨hel, hef, hed⟩ := Wrap.computeError_wrap c s.toNat xs errors hce
-      -- no error is `i32::MIN` (the search returned)
-      have hstrict : ∀ e ∈ errors, -(2 ^ 31 : Int) < e ∧ e < (2 ^ 31 : Int) := by
-        intro e he
-        have hf := (fitsI32_iff e).1 (hef e he)
-        unfold search at hs
-        simp only [Option.bind_eq_bind, Option.bind_eq_some_iff] at hs
-        obtain ⟨es, hes, _⟩ := hs
-        obtain ⟨u, hu⟩ := mapM_some_mem _ _ _ hes e he
-        refine ⟨?_, hf.2⟩
-        rcases Int.lt_or_eq_of_le hf.1 with hlt | heq
-        · exact hlt
-        · rw [← heq, encodeSignbit_min] at hu; cases hu
-      refine ⟨?_, ?_⟩
-      · intro hnw t ht
-        cases hfit : fitsI32 (errE c s.toNat xs t) with
-        | true => rfl
-        | false =>
-          have hg : (xs.foldl (fun m x => max m x.natAbs) 0) * (c.foldl (fun s c => s + c.natAbs) 0) < 2 ^ 31 - 1 :=
-            Decidable.of_not_not hnw
-          have := computeError32_none c s.toNat xs hg t ht hfit
-          unfold computeError at hce
-          simp only [] at hce
-          rw [if_pos hg, this] at hce
-          cases hce
-      · intro t h1 h2
-        have hmem : wrap32 (errE c s.toNat xs t) ∈ errors.drop c.length := by
-          rw [hed, lpcResidual_eq, List.map_map]
-          exact List.mem_map.2 ⟨t, List.mem_range'_1.2 ⟨h1, by omega⟩, rfl⟩
-        have := hstrict _ (List.mem_of_mem_drop hmem)
-        omega
-  · intro h
-    obtain ⟨f, hf⟩ := lpcCandidate_total cfg xs bps c s p rest hn hlen hc h
-    rw [hf]; rfl
+    ∃ f, lpcCandidate cfg xs bps (.qlpc c s p :: rest) = some (f, rest) ∧
+      (f.isSome = true ↔ ∀ e ∈ lpcResidual c s.toNat xs, e.natAbs ≤ 2 ^ 31 - 1) := by
+  obtain ⟨errors, fits, he, hel, her⟩ := computeError_total c s.toNat xs
+  have hflag := computeError_flag_iff c s.toNat xs errors fits he
+  unfold lpcCandidate
+  simp only [he, Option.bind_some]
+  cases fits with
+  | false =>
+    refine ⟨none, by simp, ?_⟩
+    rw [← hflag]
+    simp
+  | true =>
+    obtain ⟨prc, hp⟩ := search_some errors c.length cfg.maxP (her rfl).1 (by rw [hel]; omega) (by rw [hel]; exact hlen)
+    simp only [encodeResidual, hp, Option.bind_eq_bind, Option.bind_some, if_true, Option.map_some]
+    refine ⟨_, rfl, ?_⟩
+    rw [← hflag]
+    simp
 
 theorem lpcStage_total (cfg : SubCfg) (xs : List Int) (bps limit : Nat) (log : List OEvent)
     (hn : 64 ≤ xs.length) (hlen : xs.length < 2 ^ 16) (hok : ∀ e ∈ log, e.Ok)
-    (hq : cfg.useLpc = true → ∃ c s p, log.head? = some (.qlpc c s p) ∧ LpcSafe c s.toNat xs) :
+    (hq : cfg.useLpc = true → ∃ c s p, log.head? = some (.qlpc c s p)) :
     ∃ c, lpcStage cfg xs bps limit log = some (c, log.drop (if cfg.useLpc then 1 else 0)) := by
   unfold lpcStage
   have hnb : decide (xs.length < minBlockForPrediction) = false :=
     decide_eq_false (by unfold minBlockForPrediction; omega)
   rw [hnb]
   by_cases hl : cfg.useLpc = true
-  · obtain ⟨c, s, p, hh, hsafe⟩ := hq hl
+  · obtain ⟨c, s, p, hh⟩ := hq hl
     match log, hh with
     | e :: rest, hh =>
       simp only [List.head?_cons, Option.some.injEq] at hh
@@ -212,7 +175,7 @@ theorem lpcStage_total (cfg : SubCfg) (xs : List Int) (bps limit : Nat) (log : L
         have := hok _ (List.mem_cons_self)
         have h32 : c.length ≤ 32 := this.2.1
         omega
-      obtain ⟨f, hf⟩ := lpcCandidate_total cfg xs bps c s p rest hn hlen hcl hsafe
+      obtain ⟨f, hf, _⟩ := lpcCandidate_total cfg xs bps c s p rest hn hlen hcl
       simp only [hl, Bool.not_false, Bool.and_self, if_true, hf, Option.map_some, List.drop_succ_cons, List.drop_zero]
       exact ⟨_, rfl⟩
   · simp only [hl, Bool.and_false, Bool.false_eq_true, if_false, List.drop_zero]
@@ -326,8 +289,8 @@ theorem fixedStage_inv (cfg : SubCfg) (xs : List Int) (bps baseline : Nat) (log 
     rw [e, ← h.2]
     exact ⟨by omega, by simp, by simp⟩
 
-/-- **`SubLogOk` is exact**: `encode_subframe` returns (no panic site, log not exhausted or ill-shaped)
-iff the log has the shape it consumes and the quantised parameter set is `LpcSafe`. -/
+/-- **`SubLogOk` is exact**: `encode_subframe` returns iff the log has the shape it consumes — `none` never
+means a panic site. -/
 theorem encodeSubframe_isSome_iff (cfg : SubCfg) (xs : List Int) (bps : Nat) (log : List OEvent)
     (hlen : xs.length < 2 ^ 16) (hb : 1 ≤ bps ∧ bps ≤ 25)
     (hx : ∀ x ∈ xs, SubFrame.inRange bps x = true) (hok : ∀ e ∈ log, e.Ok) :
@@ -357,13 +320,7 @@ theorem encodeSubframe_isSome_iff (cfg : SubCfg) (xs : List Int) (bps : Nat) (lo
       obtain ⟨⟨c0, l0⟩, hlc, _, _⟩ := hl
       match hlog1 : log.drop (estTake cfg), hlc with
       | .qlpc c s p :: rest, hlc =>
-        have hcl : c.length ≤ 64 := by
-          have hm : OEvent.qlpc c s p ∈ log := List.mem_of_mem_drop (by rw [hlog1]; simp)
-          have h32 : c.length ≤ 32 := (hok _ hm).2.1
-          omega
-        refine ⟨c, s, p, rfl, ?_⟩
-        rw [← lpcCandidate_isSome_iff cfg xs bps c s p rest hn hlen hcl, hlc]
-        rfl
+        exact ⟨c, s, p, rfl⟩
       | .est _ _ :: _, hlc => simp [lpcCandidate] at hlc
       | [], hlc => simp [lpcCandidate] at hlc
   · intro h
